@@ -12,25 +12,51 @@ RULE = ("cases: (graph, trace, times, configuration, metric); graphs may contain
         "outliers; noise values incl. 0.01 and 100; cut-offs, widths, non-emitting on/off; both metrics (lat/lon by "
         "placing the planar case at a drawn origin, 5-100 m per unit); non-trivial = non-empty result; distinct = case JSON")
 ASSUMPTIONS = ["finite map (every neighbour label is a node), non-empty trace, finite coordinates, |lat| <= 60",
-               "labels ints or short strings without '-'/'_'", "InMemMap backend without index"]
+               "labels ints or short strings without '-'/'_'", "InMemMap without index; SqliteMap for a fifth of the integer-labelled cases"]
 TOLERANCES = {"pairs_vs_triples": "exact equality of index, path keys, states and log-probability"}
 BUDGET = {"quick": {"shards": 8, "examples": 500}, "thorough": {"shards": 16, "examples": 10000}}
 FUZZ = {"thorough": {"runs": 15000, "seed_inputs": 16, "max_len": 4096,
                      "include": ("leuvenmapmatching.matcher", "leuvenmapmatching.util", "leuvenmapmatching.map")}}
 
 
-def build(case, trace):
-    if case["metric"] == "latlon":
+def build(case, trace, tmpdir=None):
+    latlon = case["metric"] == "latlon"
+    g, t, cfg = case["graph"], trace, case["config"]
+    if latlon:
         org, unit = case["origin"], case["unit"]
         g = gen.place_graph(case["graph"], org, unit)
         t = gen.place_trace(trace, org, unit)
         cfg = gen.scale_config(case["config"], unit)
-        return base.mk_inmem(g, latlon=True), base.to_path(t), cfg
-    return base.mk_inmem(case["graph"]), base.to_path(trace), case["config"]
+    if case.get("backend") == "sqlite":
+        return base.mk_sqlite(g, tmpdir, latlon=latlon), base.to_path(t), cfg
+    return base.mk_inmem(g, latlon=latlon), base.to_path(t), cfg
 
 
 def run(case, trace):
-    m, path, cfg = build(case, trace)
+    import shutil
+    import tempfile
+    tmpdir = None
+    if case.get("backend") == "sqlite":
+        import os
+        tmpdir = tempfile.mkdtemp(prefix="lmmv_c17_", dir="/dev/shm" if os.path.isdir("/dev/shm") else None)
+    try:
+        with base.quiet():
+            return _run(case, trace, tmpdir)
+    finally:
+        if tmpdir:
+            shutil.rmtree(tmpdir, ignore_errors=True)
+
+
+def _run(case, trace, tmpdir):
+    m, path, cfg = build(case, trace, tmpdir)
+    try:
+        return _match(case, m, path, cfg)
+    finally:
+        if tmpdir:
+            m.db.close()
+
+
+def _match(case, m, path, cfg):
     matcher = base.pkg(base.mk_matcher, m, cfg)
     res = base.pkg(matcher.match, path, unique=case.get("unique", False))
     if not (isinstance(res, tuple) and len(res) == 2):
@@ -49,7 +75,7 @@ def check_case(case, ctx):
     if r1 != r2:
         raise Violation("timestamps", f"pairs give {r1}, (lat, lon, time) triples give {r2}")
     cfg = case["config"]
-    classes = [case["metric"], "family:" + cfg["family"], "ne:%s" % bool(cfg.get("non_emitting_states")),
+    classes = [case["metric"], "backend:" + case.get("backend", "inmem"), "family:" + cfg["family"], "ne:%s" % bool(cfg.get("non_emitting_states")),
                "trace:" + case.get("trace_kind", "?")]
     locs = [tuple(n[1]) for n in case["graph"]]
     if len(set(locs)) < len(locs):
@@ -77,6 +103,8 @@ def strategy(tier):
         case = {"graph": g, "trace": t, "config": cfg, "metric": metric, "trace_kind": kind,
                 "times": [float(draw(st.integers(0, 10 ** 9))) + 0.5 * i for i in range(len(t))],
                 "unique": draw(st.booleans())}
+        if type(g[0][0]) is int and all(n[0] >= 0 for n in g) and draw(st.integers(0, 4)) == 0:
+            case["backend"] = "sqlite"  # duplicate locations give zero-length edges there too
         if metric == "latlon":
             case["origin"] = draw(gen.origin())
             case["unit"] = draw(st.sampled_from([5.0, 20.0, 100.0]))
